@@ -18,14 +18,18 @@ struct Node {
     log: Log,
     /// (gate name, gate pos, delay in ns or None for immediate `send`)
     send_on_start: Option<(String, usize, Option<u64>)>,
+    /// send a second message right behind the first
+    twice: bool,
 }
 impl Module for Node {
     fn at_sim_start(&mut self, _: usize) {
         if let Some((g, pos, d)) = &self.send_on_start {
-            let msg = Message::default().id(7);
-            match d {
-                None => send(msg, (g.as_str(), *pos)),
-                Some(d) => send_in(msg, (g.as_str(), *pos), Duration::from_nanos(*d)),
+            for id in if self.twice { vec![7u16, 8] } else { vec![7] } {
+                let msg = Message::default().id(id);
+                match d {
+                    None => send(msg, (g.as_str(), *pos)),
+                    Some(d) => send_in(msg, (g.as_str(), *pos), Duration::from_nanos(*d)),
+                }
             }
         }
     }
@@ -80,12 +84,15 @@ struct Case {
     /// both ends send at the same time and the channels have a bitrate (64 ms per 64-byte
     /// message and channel hop): the two directions must not get in each other's way
     duplex: bool,
+    /// two messages in the same direction, right behind each other, over channels with a bitrate
+    /// and an unbounded queue: the second waits in the first busy channel and follows 64 ms behind
+    burst: bool,
 }
 
 fn case_json(c: &Case) -> Value {
     json!({"k": c.k, "layout": c.layout, "connect_order": c.perm, "orientation_bits": c.orient, "channel_bits": c.chans, "direction": c.dir,
            "send": match c.send { SendKind::Send => json!("send"), SendKind::SendIn(d) => json!({"send_in_ns": d}), SendKind::Inject(t) => json!({"add_message_onto_at_ns": t}) },
-           "reconnect": c.reconnect, "duplex": c.duplex})
+           "reconnect": c.reconnect, "duplex": c.duplex, "burst": c.burst})
 }
 fn case_from(v: &Value) -> Case {
     let s = &v["send"];
@@ -105,6 +112,7 @@ fn case_from(v: &Value) -> Case {
         },
         reconnect: v["reconnect"].as_bool().unwrap(),
         duplex: v["duplex"].as_bool().unwrap_or(false),
+        burst: v["burst"].as_bool().unwrap_or(false),
     }
 }
 
@@ -135,6 +143,7 @@ fn run_inner(c: &Case) -> Result<u64, String> {
                         (true, SendKind::SendIn(d)) => Some(("g".into(), if cluster { 1 } else { 0 }, Some(d))),
                         _ => None,
                     },
+                    twice: c.burst && i == src,
                 },
             );
         }
@@ -158,7 +167,7 @@ fn run_inner(c: &Case) -> Result<u64, String> {
     let lat = |e: usize| 1u64 << e; // ms, pairwise distinct sums
     let mk_chan = |e: usize| {
         if c.chans & (1 << e) != 0 {
-            Some(Channel::new(ChannelMetrics::new(if c.duplex { 8000 } else { 0 }, Duration::from_millis(lat(e)), Duration::ZERO, ChannelDropBehaviour::Drop)))
+            Some(Channel::new(ChannelMetrics::new(if c.duplex || c.burst { 8000 } else { 0 }, Duration::from_millis(lat(e)), Duration::ZERO, if c.burst { ChannelDropBehaviour::Queue(None) } else { ChannelDropBehaviour::Drop })))
         } else {
             None
         }
@@ -221,7 +230,7 @@ fn run_inner(c: &Case) -> Result<u64, String> {
     if let Err(e) = &r {
         return Err(format!("run returned an error: {e:?}"));
     }
-    let per_hop_tx = if c.duplex { 64 } else { 0 };
+    let per_hop_tx = if c.duplex || c.burst { 64 } else { 0 };
     let total: u64 = (0..edges).filter(|e| c.chans & (1 << e) != 0).map(|e| lat(e) + per_hop_tx).sum();
     let exp_t = u128::from(t0) + u128::from(total) * 1_000_000;
     let mut recvs: Vec<String> = log.lock().unwrap().clone();
@@ -231,6 +240,14 @@ fn run_inner(c: &Case) -> Result<u64, String> {
         let exp_back = format!("recv:m{}:t={exp_t}:last={}:snd={other_id}:rcv_ok=true", owner(src), all[src]);
         let Some(pos) = recvs.iter().position(|r| *r == exp_back) else {
             return Err(format!("chain {all:?} (channels with a bitrate on hops {chan_exp:?}), both ends sending at once: expected '{exp_back}' among {recvs:?}"));
+        };
+        recvs.remove(pos);
+    }
+    if c.burst {
+        // the follower: same route, one transmission time later
+        let exp2 = format!("recv:m{}:t={}:last={}:snd={sender_id}:rcv_ok=true", owner(dst), exp_t + 64_000_000, all[dst]);
+        let Some(pos) = recvs.iter().position(|r| *r == exp2) else {
+            return Err(format!("chain {all:?} (queueing channels with a bitrate on hops {chan_exp:?}), two messages sent right behind each other: expected the second as '{exp2}' among {recvs:?}"));
         };
         recvs.remove(pos);
     }
@@ -255,7 +272,7 @@ fn third_peer_rejected(orient: bool) -> Result<(), String> {
     let _ = quiet_catch(move || {
         let mut sim = Sim::new(());
         for n in ["a", "b", "c", "d"] {
-            sim.node(n, Node { name: n.into(), log: Default::default(), send_on_start: None });
+            sim.node(n, Node { name: n.into(), log: Default::default(), send_on_start: None, twice: false });
         }
         let (a, b, c, d) = (sim.gate("a", "g"), sim.gate("b", "g"), sim.gate("c", "g"), sim.gate("d", "g"));
         a.connect(b.clone(), None);
@@ -273,7 +290,7 @@ impl Property for C08 {
     fn rule(&self, tier: Tier) -> String {
         format!(
             "every chain of k = 2..={} gates x layout {{one module per gate, two chain gates on one module, cluster-element end gates}} x all (k-1)! connect orders x 2^(k-1) orientations x 2^(k-1) channel placements (latencies 1,2,4,8 ms so that the arrival time identifies the hops) \
-             x both directions x {{send, send_in(0.5 s), add_message_onto}} x {{plain, every connect re-issued in both orientations, duplex: both ends send at the same instant over channels that have a bitrate (the two directions must not get in each other's way)}}; \
+             x both directions x {{send, send_in(0.5 s), add_message_onto}} x {{plain, every connect re-issued in both orientations, duplex: both ends send at the same instant over channels that have a bitrate (the two directions must not get in each other's way), burst: two messages right behind each other over queueing channels with a bitrate (the second waits in the busy channel and arrives one transmission time later, over the same route)}}; \
              oracle: exactly one handle_message at the far-end owner at send time + sum of latencies with last_gate / sender / receiver header fields; kind() per gate, path_iter from both ends mirror images, path_end / next_gate, channels on the declared hops, third peer rejected; \
              non-trivial = chain with at least 3 gates",
             tier.pick(5, 6)
@@ -283,7 +300,7 @@ impl Property for C08 {
         vec!["channels have bitrate 0 (pure latency) except in the duplex variant (8000 bit/s, one message per direction); busy/queue behaviour is C07's subject".into()]
     }
     fn required_features(&self, _tier: Tier) -> Vec<&'static str> {
-        vec!["chain_with_transit_gates", "two_gates_on_one_module", "cluster_end_gates", "reverse_direction", "injected_message", "reconnect_idempotence", "connects_out_of_chain_order", "third_peer_probe", "both_ends_send_at_once_over_channels_with_bitrate"]
+        vec!["chain_with_transit_gates", "two_gates_on_one_module", "cluster_end_gates", "reverse_direction", "injected_message", "reconnect_idempotence", "connects_out_of_chain_order", "third_peer_probe", "both_ends_send_at_once_over_channels_with_bitrate", "second_message_queued_behind_the_first"]
     }
     fn explore(&self, ctx: &mut Ctx) {
         if ctx.is_first_shard() {
@@ -307,14 +324,20 @@ impl Property for C08 {
                         for chans in 0..(1u32 << edges) {
                             for dir in 0..2u8 {
                                 for send in [SendKind::Send, SendKind::SendIn(500_000_000), SendKind::Inject(250_000_000)] {
-                                    for (reconnect, duplex) in [(false, false), (true, false), (false, true)] {
+                                    for (reconnect, duplex, burst) in [(false, false, false), (true, false, false), (false, true, false), (false, false, true)] {
                                         if duplex && (dir != 0 || chans == 0 || matches!(send, SendKind::Inject(_))) {
+                                            continue;
+                                        }
+                                        if burst && (chans == 0 || matches!(send, SendKind::Inject(_))) {
                                             continue;
                                         }
                                         if !ctx.mine() {
                                             continue;
                                         }
-                                        let c = Case { k, layout, perm: perm.clone(), orient, chans, dir, send, reconnect, duplex };
+                                        let c = Case { k, layout, perm: perm.clone(), orient, chans, dir, send, reconnect, duplex, burst };
+                                        if burst {
+                                            ctx.hit("second_message_queued_behind_the_first");
+                                        }
                                         if duplex {
                                             ctx.hit("both_ends_send_at_once_over_channels_with_bitrate");
                                         }
